@@ -1,8 +1,10 @@
 package main
 
 import (
+	"fmt"
 	"go/ast"
 	"go/types"
+	"os"
 
 	"golang.org/x/tools/go/ssa"
 )
@@ -27,13 +29,15 @@ func init() {
 			{Name: "gemfile-match-check-weakened", File: "extractor/filesystem/language/ruby/gemfilelock/gemfilelock.go", Old: "if len(m) < 3 || m[1] == \"\" || m[2] == \"\" {", New: "if m[1] == \"\" || m[2] == \"\" {", Rule: "D1-bounds", Site: "gemfilelock"},
 			{Name: "comma-ok-assert-to-single", File: "extractor/filesystem/language/java/archive/archive.go", Old: "	r, ok := input.Reader.(io.ReaderAt)\n	l := input.Info.Size()\n	if !ok {", New: "	r := input.Reader.(io.ReaderAt)\n	l := input.Info.Size()\n	if r == nil {", Rule: "D1-assert", Site: "extractWithMax"},
 			{Name: "open-error-dropped", File: "extractor/filesystem/filesystem.go", Old: "		addErrToMap(wc.errors, ex.Name(), fmt.Errorf(\"Open(%s): %w\", path, err))\n", New: "", Rule: "D3-surfaced", Site: "Open"},
+			{Name: "archive-depth-not-increased", File: "extractor/filesystem/language/java/archive/archive.go", Old: "e.extractWithMax(ctx, subInput, depth+1, openedBytes)", New: "e.extractWithMax(ctx, subInput, depth, openedBytes)", Rule: "D4-recursion", Site: "extractWithMax"},
+			{Name: "visited-set-records-the-start-file", File: "extractor/filesystem/language/python/requirements/requirements.go", Old: "		found[path] = true\n", New: "		found[initPath] = true\n", Rule: "D4-visited-set", Site: "extractFromExtraPaths"},
+			{Name: "containerd-visited-not-recorded", File: "extractor/filesystem/containers/containerd/containerd_linux.go", Old: "		visited[digest] = true\n", New: "		visited[\"\"] = true\n", Rule: "D4-visited-set", Site: "getParentSnapshotIDByDigest"},
 		},
 	})
 }
 
 var auditedC02 = map[string]auditEntry{
 	"clients/datasource.HTTPAuthentication.Get:wwwAuth[idx]": {reason: "idx is the result of authIndex (slices.IndexFunc over the same slice), tested >= 0", needs: []string{"call:clients/datasource.HTTPAuthentication.authIndex"}},
-	"extractor/filesystem/containers/containerd.getParentSnapshotIDByDigest:parentSnapshotMetadata.Parent[strings.LastIndex(snapshotMetadataDict[digest].Parent, \"/\") + 1:]": {reason: "both operands are the same map element snapshotMetadataDict[digest]; LastIndex+1 <= len of that string"},
 	"extractor/filesystem/language/javascript/internal/commitextractor.TryExtractCommit:matched[1]":                                                                            {reason: "every pattern in the package-level matchers list has exactly one capture group; matched != nil is tested"},
 	"extractor/filesystem/os/dpkg.parseSourceNameVersion:source[idx + 2:len(source) - 1]":                                                                                      {reason: "source contains \" (\" at idx and ends in \")\", a different byte, so len(source)-1 >= idx+2", needs: []string{"call:strings.HasSuffix", "call:strings.Index"}},
 	"extractor/filesystem/os/flatpak.Extractor.extractFromInput:f.Releases.Release[0]":                                                                                         {reason: "reached only with pkgVersion != \"\", which is assigned only under len(f.Releases.Release) > 0"},
@@ -113,6 +117,16 @@ func runC02(p *Prog, r *Report) {
 		np += a
 		nu += b
 	}
+	if os.Getenv("SCALINT_LEARN") != "" {
+		for _, g := range recursiveGroups(p, fns) {
+			var ks []string
+			for _, f := range g {
+				ks = append(ks, fnKey(f))
+			}
+			fmt.Fprintf(os.Stderr, "LEARN-REC\t%v\n", ks)
+		}
+	}
+	c02Termination(p, r, fns)
 	r.Count("bounds sites proved", np)
 	r.Count("bounds sites unproved", nu)
 	r.Rule("D1-nil-decode", "pointers that JSON/YAML decoding may leave nil are tested before they are dereferenced")
